@@ -19,6 +19,9 @@ fn profile(thorough: bool) -> Profile {
         check: 5,
         roundtrip: 9,
         add_attr: 2,
+        // edits of *other* attributes must not move a disabling (seed R9-C06A)
+        del_attr: 2,
+        rename: 1,
         bad_pct: 1,
         min_ops: 1,
         max_ops: if thorough { 50 } else { 25 },
